@@ -26,6 +26,7 @@ for case in h.cases(tier):
             out = {'end': 'exception', 'msg': str(e)}
         if isinstance(out, dict) and 'end' in out:
             k = out.get('msg', '')[:150]
+            out['msg'] = out.get('msg', '')
             seen[k] += 1
             if seen[k] == 1:
                 print(json.dumps(case), json.dumps(j), out)
